@@ -21,6 +21,17 @@ def run_witness(w):
         if not ok:
             return False, dict(error="stylua binary does not build: " + err[-500:])
         return cli_witness.run_witness(w)
+    if w.get("kind") == "featbin":
+        # the stylua binary built from /repo's working tree with one Cargo feature set of its own (e.g. `luau` without `lua53`): the formatter
+        # has to return a result for a program of that dialect (C07: the oracle is "no panic, exit 0, some output")
+        tgt = os.path.join(ROOT, ".build", "feat-" + re.sub(r"[^a-z0-9]+", "-", w["features"]) + "-target")
+        env = dict(os.environ, CARGO_NET_OFFLINE="true", CARGO_TARGET_DIR=tgt); env.pop("RUSTUP_TOOLCHAIN", None)
+        p = subprocess.run(["cargo", "build", "--offline", "--features", w["features"]], cwd=os.environ.get("VX_REPO", "/repo"), env=env, capture_output=True, text=True)
+        if p.returncode != 0:
+            return False, dict(error=f"stylua --features {w['features']} does not build: " + p.stderr[-500:])
+        q = subprocess.run([os.path.join(tgt, "debug", "stylua")] + list(w.get("args") or []) + ["-"], input=w["src"], capture_output=True, text=True, timeout=120)
+        bad = q.returncode != 0 or "panicked" in q.stderr or not q.stdout
+        return bad, dict(violated=bad, detail=(f"stylua built with --features {w['features']}: exit {q.returncode}; " + q.stderr[:400]) if bad else "", output=q.stdout[:2000])
     if w.get("kind") == "ignorefile":
         fails, _ = run_corpus_ignore([w.get("opts") or {}], thorough=True, only=w["file"])
         hit = [f for f in fails if f["case"] == w["case"]]
